@@ -17,13 +17,17 @@ import (
 
 type fileModel struct {
 	ver  int
-	kind int // 0 plain, 1 includes ref, 2 extends ref, 3 imports ref
+	kind int // 0 plain, 1 includes ref, 2 extends ref, 3 imports ref, 4 includeIfExists(ref), 5 exec(ref): 1/4/5 load at run time
 	ref  string
 }
 
 func (f fileModel) content(path string) string {
 	m := fmt.Sprintf("[%s#%d]", path, f.ver)
 	switch f.kind {
+	case 4:
+		return m + fmt.Sprintf(`{{includeIfExists(%q)}}`, f.ref)
+	case 5:
+		return m + fmt.Sprintf(`{{exec(%q)}}`, f.ref)
 	case 1:
 		return m + fmt.Sprintf(`{{include %q}}`, f.ref)
 	case 2:
@@ -38,6 +42,7 @@ type setModel struct {
 	set        *jet.Set
 	dev        bool
 	simCache   *SimCache
+	execClean  map[*jet.Template]bool   // templates whose last Execute succeeded with every run-time lookup found
 	succ       map[string]*jet.Template // explicit successful GetTemplate by request name
 	failed     map[string]bool          // last explicit attempt failed
 	mayCached  map[string]bool          // paths a legitimate Put may have stored
@@ -94,14 +99,14 @@ func (c *c16) loadable(name string, depth int) bool {
 	if !strings.HasPrefix(ref, "/") {
 		ref = Normalize(Dir(p) + "/" + ref)
 	}
-	if f.kind == 1 {
-		return true // includes load at run time, not at GetTemplate
+	if f.kind == 1 || f.kind == 4 || f.kind == 5 {
+		return true // loaded at run time, not at GetTemplate
 	}
 	return c.loadable(ref, depth+1)
 }
 
 func (c *c16) newSet(i int) {
-	sm := &setModel{succ: map[string]*jet.Template{}, failed: map[string]bool{}, mayCached: map[string]bool{}, parsedOnly: map[string]bool{}}
+	sm := &setModel{execClean: map[*jet.Template]bool{}, succ: map[string]*jet.Template{}, failed: map[string]bool{}, mayCached: map[string]bool{}, parsedOnly: map[string]bool{}}
 	if i < len(c.sets) && c.sets[i] != nil {
 		sm.dev = c.sets[i].dev
 		sm.gen = c.sets[i].gen + 1
@@ -339,10 +344,17 @@ func (c *c16) opGet(sm *setModel, name string, exec bool) {
 // includeTarget picks a run-time include target "downhill" (/a -> /b -> /d/e),
 // so include chains cannot be cyclic.
 func includeTarget(t *sim.Tape, b string) (kind int, ref string) {
+	k := []int{1, 1, 4, 5}[t.Choose(4)] // include, includeIfExists, exec (the latter two resolve against the root)
 	switch b {
 	case "/a":
+		if k != 1 {
+			return k, []string{"/b", "/d/e"}[t.Choose(2)]
+		}
 		return 1, []string{"/b", "/d/e", "d/e", "./b"}[t.Choose(4)]
 	case "/b":
+		if k != 1 {
+			return k, "/d/e"
+		}
 		return 1, []string{"/d/e", "d/e"}[t.Choose(2)]
 	}
 	return 0, ""
@@ -362,9 +374,11 @@ func (c *c16) markCached(sm *setModel, p string) {
 
 func (c *c16) opExec(sm *setModel, t *jet.Template, name string) {
 	t0 := len(c.loader.Trace)
+	firedBefore := len(c.loader.Fired) + sumFired(c.loader)
 	var buf bytes.Buffer
 	var err error
 	pc := sim.Guard(func() { err = t.Execute(&buf, nil, nil) })
+	faultDuringExec := len(c.loader.Fired)+sumFired(c.loader) != firedBefore
 	calls := append([]Call(nil), c.loader.Trace[t0:]...)
 	op := fmt.Sprintf("Execute(%q) on set#%d.%d (%s)", name, indexOf(c.sets, sm), sm.gen, c.mode(sm))
 	c.env.Event("%s -> %q err=%v calls=%v", op, buf.String(), err, calls)
@@ -374,6 +388,34 @@ func (c *c16) opExec(sm *setModel, t *jet.Template, name string) {
 		return
 	}
 	c.checkExtOrder(sm, calls, op)
+	// outside development mode, what an Execute loaded at run time (include, includeIfExists, exec)
+	// is remembered like any successful lookup: executing the same template again touches no loader
+	if !sm.dev {
+		if sm.execClean[t] && len(calls) > 0 && err == nil {
+			c.env.Violate("identical-hit", "nodev:exec-hit-touched-loader", "%s: the previous Execute of this very template succeeded and found every template it looks up at run time, yet this one touched the loader again: %v\nhistory: %s", op, calls, strings.Join(c.hist, " "))
+		}
+		allFound := err == nil && !faultDuringExec
+		for i, cl := range calls {
+			if cl.Seam == "Exists" && cl.Result == "false" {
+				// a candidate miss is fine as long as a later candidate of the same lookup was opened
+				found := false
+				for _, c2 := range calls[i+1:] {
+					if c2.Seam == "Open" {
+						found = c2.Result == "ok"
+						break
+					}
+				}
+				if !found {
+					allFound = false
+				}
+			}
+			if cl.Seam == "Open" && cl.Result != "ok" {
+				allFound = false
+			}
+		}
+		sm.execClean[t] = allFound
+		c.env.Stat("probe:repeat_execute_of_fully_cached_template", int64(boolInt(len(calls) == 0 && err == nil)))
+	}
 	if sm.dev && err == nil {
 		// the top file was fetched by the GetTemplate just before; what is judged here is what
 		// Execute itself loads (run-time includes): they must be current
@@ -462,6 +504,14 @@ func (c *c16) opParse(sm *setModel, name string) {
 			}
 		}
 	}
+}
+
+func sumFired(l *SimLoader) int {
+	n := 0
+	for _, v := range l.Fired {
+		n += v
+	}
+	return n
 }
 
 func boolInt(b bool) int {
